@@ -27,7 +27,8 @@ from typing import Any
 import vlib
 
 HERE = os.path.dirname(os.path.abspath(__file__))
-CLASS_FILE = os.path.join(HERE, "options_class.json")
+# VERIF_C09_CLASS: developer aid (validating a proposed fix with the reclassification it requires); never set by bin/*
+CLASS_FILE = os.environ.get("VERIF_C09_CLASS") or os.path.join(HERE, "options_class.json")
 
 # ------------------------------------------------------------------------------------------------
 # Witness programs.  Each is a dict path -> text.  "a.py" is the default target and the default module
